@@ -76,6 +76,8 @@ Proof.
 Qed.
 
 (* ------------------------------------------------------------------ JWS: parse (FullSerialize o) *)
+Local Opaque b64url_encode decode_member has_nonce.
+
 Section JwsJson.
   Variable hdr_dec : bytes -> option header.
 
@@ -96,10 +98,90 @@ Section JwsJson.
   Proof.
     intros (Wp & Ws & Hn & Hd). destruct s as [p ph h sg]. cbn [se_prot se_ph se_hdr se_sig] in *.
     unfold view_sig, sig_members, parse_sig. cbn [se_prot se_ph se_hdr se_sig].
-    destruct p as [|p0 p]; destruct h as [h|]; cbn [is_nil negb opt_member app];
-      vm_compute jstr1; vm_compute jhdr1; cbn beta iota.
-    all: try rewrite (decode_member_enc _ Wp); try rewrite (decode_member_enc _ Ws); cbn [bind decode_member is_nil].
-    all: try rewrite (Hd ltac:(discriminate)); cbn [bind]; try rewrite Hn; try rewrite (decode_member_enc _ Ws);
-      cbn [bind has_nonce]; reflexivity.
+    destruct p as [|p0 p]; destruct h as [h|]; cbn [is_nil negb opt_member app]; cbn.
+    all: try rewrite (decode_member_enc _ Wp); try rewrite (decode_member_enc _ Ws); cbn [bind is_nil].
+    all: try rewrite (Hd ltac:(discriminate)); cbn [bind]; try rewrite Hn; reflexivity.
+  Qed.
+
+  Lemma jstr_general pl items :
+    jstr [(n_payload, MStr pl); (n_signatures, MArr items)] n_payload = Some pl.
+  Proof. reflexivity. Qed.
+  Lemma jarr_general pl items :
+    jarr [(n_payload, MStr pl); (n_signatures, MArr items)] n_signatures = items.
+  Proof. reflexivity. Qed.
+
+  Definition wf_jws_obj (o : jws_obj) : Prop :=
+    wf_bytes (jo_payload o) /\ jo_sigs o <> [] /\ (forall s, In s (jo_sigs o) -> wf_sig s).
+
+  (* parse (FullSerialize o): one signature -> flattened, two or more -> general; the parser
+     returns the payload and, per signature, the ORIGINAL protected bytes, their parsed value, the
+     unprotected header and the signature, in order *)
+  Lemma parse_jws_full_serialize o :
+    wf_jws_obj o -> parse_jws_full hdr_dec (jws_full o) = Ok (jo_payload o, map view_sig (jo_sigs o)).
+  Proof.
+    intros (Wl & NE & Ws). destruct o as [pl sigs]. cbn [jo_payload jo_sigs] in *.
+    unfold parse_jws_full, jws_full. cbn [jo_payload jo_sigs].
+    destruct sigs as [|s1 [|s2 rest]]; [contradiction| |].
+    - (* flattened *)
+      pose proof (parse_entry s1 (Ws s1 (or_introl eq_refl))) as P.
+      destruct s1 as [p ph h sg]. unfold sig_members in *. cbn [se_prot se_ph se_hdr se_sig] in *.
+      destruct p as [|p0 p]; destruct h as [h|]; cbn [is_nil negb opt_member app map lift_leaf] in *; cbn in *.
+      all: rewrite (decode_member_enc _ Wl); cbn [bind]; rewrite P; reflexivity.
+    - (* general *)
+      rewrite jstr_general, (decode_member_enc _ Wl). cbn [bind]. rewrite jarr_general.
+      cbn [map]. change (sig_members s1 :: sig_members s2 :: map sig_members rest) with (map sig_members (s1 :: s2 :: rest)).
+      rewrite (map_res_map sig_members _ view_sig) by (intros x Hx; apply parse_entry, Ws, Hx).
+      reflexivity.
+  Qed.
+
+  (* the same through the text: encoding/json as an oracle pair with the round-trip hypothesis *)
+  Variable json_enc : jobj -> bytes.
+  Variable json_dec : bytes -> option jobj.
+  Hypothesis json_roundtrip : forall o, json_dec (json_enc o) = Some o.
+  (* json.Marshal output starts with an opening brace and contains no white space outside strings; base64url
+     members contain none; header strings are assumed free of it (ParseSigned strips white space
+     from the whole text before parsing, inside strings too) *)
+  Hypothesis json_text : forall o, strip_ws (json_enc o) = json_enc o /\ starts_with_brace (json_enc o) = true.
+
+  Lemma parse_signed_full_serialize o :
+    wf_jws_obj o ->
+    parse_signed_json json_dec hdr_dec (json_enc (jws_full o)) = Ok (jo_payload o, map view_sig (jo_sigs o)).
+  Proof.
+    intro W. unfold parse_signed_json. destruct (json_text (jws_full o)) as [-> ->].
+    rewrite json_roundtrip. apply parse_jws_full_serialize. exact W.
   Qed.
 End JwsJson.
+
+(* ------------------------------------------------------------------ multi-signature Verify *)
+Lemma jws_verify_multi_some verify payload sigs s :
+  In s sigs -> hget (psig_merged s) n_crit = [] ->
+  verify (hget (psig_merged s) n_alg) (signing_input (ps_prot s) payload) (ps_sig s) = true ->
+  jws_verify_multi verify payload sigs = Ok payload.
+Proof.
+  intros Hin Hc Hv. induction sigs as [|x sigs IH]; [contradiction|]. cbn [jws_verify_multi].
+  destruct Hin as [->|Hin].
+  - rewrite Hc. cbn [is_nil negb]. rewrite Hv. reflexivity.
+  - destruct (negb (is_nil (hget (psig_merged x) n_crit))); [apply IH; exact Hin|].
+    destruct (verify (hget (psig_merged x) n_alg) (signing_input (ps_prot x) payload) (ps_sig x));
+      [reflexivity|apply IH; exact Hin].
+Qed.
+
+Lemma jws_verify_multi_none verify payload sigs :
+  (forall s, In s sigs -> hget (psig_merged s) n_crit = [] ->
+     verify (hget (psig_merged s) n_alg) (signing_input (ps_prot s) payload) (ps_sig s) = false) ->
+  jws_verify_multi verify payload sigs = Err e_crypto.
+Proof.
+  induction sigs as [|x sigs IH]; intro H; [reflexivity|]. cbn [jws_verify_multi].
+  destruct (is_nil (hget (psig_merged x) n_crit)) eqn:Ec; cbn [negb].
+  - rewrite (H x (or_introl eq_refl)) by (destruct (hget (psig_merged x) n_crit); [reflexivity|discriminate]).
+    apply IH. intros s Hs. apply H. right. exact Hs.
+  - apply IH. intros s Hs. apply H. right. exact Hs.
+Qed.
+
+(* the algorithm a signature is verified under is its PROTECTED header's whenever that names one *)
+Lemma verify_alg_protected s ph :
+  ps_phdr s = Some ph -> hget ph n_alg <> [] -> hget (psig_merged s) n_alg = hget ph n_alg.
+Proof.
+  intros E NE. unfold psig_merged. rewrite E. rewrite merged_protected_wins by (cbn; auto).
+  destruct (hget ph n_alg); [contradiction|reflexivity].
+Qed.
